@@ -206,7 +206,7 @@ def generate(rng, tier="quick"):
     ops = []
     evals = []
     for _ in range(rng.randint(1, 40 if tier == "thorough" else 24)):
-        kind = rng.weighted([("eval", 10), ("reject", 5), ("repeat", 2), ("restat", 2), ("validate", 3), ("revalidate", 1.5), ("create", 1.6)])
+        kind = rng.weighted([("eval", 10), ("reject", 5), ("repeat", 2), ("restat", 2), ("validate", 3), ("revalidate", 1.5), ("create", 2.0)])
         if kind == "eval":
             ast = gen_ast(rng, rng.randint(0, 4))
             op = {"op": "eval", "ast": ast, "text": to_text(render(ast), rng.pick(("spaced", "tight", "mixed"))), "stats": gen_stats(rng)}
@@ -232,7 +232,7 @@ def generate(rng, tier="quick"):
             ops.append({"op": "validate", "tokens": toks, "valid": valid, "with_bbox": rng.chance(0.3), "section": rng.pick(("gross_range_test", "location_test", "spike_test"))})
         elif kind == "create":
             creates = [o for o in ops if o["op"] == "create" and "vc_from" not in o]
-            if creates and rng.chance(0.4):
+            if creates and rng.chance(0.5):
                 # the same QcVariableConfig object (same bbox list, same test specs) handed to a creator again,
                 # possibly the creator of another climatology
                 j = rng.pick([i for i, o in enumerate(ops) if o["op"] == "create" and "vc_from" not in o])
@@ -509,13 +509,16 @@ BUDGET = {
 EVIDENCE = {
     "level": "exploration",
     "rule": (
-        "Seeded histories of 1-24 (thorough: 40) operations against the one module-level exprStack of the interpreter: EVAL of "
-        "expressions rendered from generated ASTs (depth <= 4; numbers, min/max/mean/std, + - * /, unary minus, parentheses; spaced, "
-        "tight and mixed spacing) compared bitwise with an AST evaluator; REJECT inputs that fail after tokens were pushed or name "
-        "unknown identifiers; evaluations that raise ZeroDivisionError mid-way; repeated EVALs; QcVariableConfig token validation; "
-        "create_config over real NetCDF3 climatology files (12 monthly steps, time-constant positive field with NaN cells, seeded "
-        "grids / bounding boxes incl. edges on grid lines / date ranges incl. new-year crossings). Non-trivial: at least two "
-        "operations and at least one rejected input. Distinct: distinct (digest of all operation results, digest of the op-kind sequence)."
+        "Seeded histories of 1-24 (thorough: 40) operations against the one module-level exprStack of a fresh forked process: EVAL of "
+        "expressions rendered from generated ASTs (depth <= 4; numbers, min/max/mean/std, + - * /, stacked unary minus, parentheses; "
+        "spaced, tight and mixed spacing) compared bitwise with an AST evaluator; REJECT inputs that fail after tokens were pushed or name "
+        "unknown identifiers; evaluations that raise ZeroDivisionError mid-way; repeated EVALs and the same text with other statistics; "
+        "QcVariableConfig token validation (incl. tokens with a line terminator, a bbox entry next to the limits, the same spec validated "
+        "twice); create_config over real NetCDF3 climatology files (12 monthly steps, 2-d or 3-d, time-constant positive field of ordinary, "
+        "tiny or large magnitude with NaN cells, ascending or descending axes, seeded bounding boxes incl. edges on grid lines and boxes "
+        "without any cell, date ranges incl. new-year crossings, configs given as dict / file path, one variable config reused across "
+        "creators). Non-trivial: at least two operations and at least one rejected input. Distinct: distinct (digest of all operation "
+        "results, digest of the op-kind sequence). "
     ),
     "real": ["ioos_qc.config_creator.fx_parser (pyparsing grammar, exprStack, evaluate_stack, eval_fx)", "QcVariableConfig", "QcConfigCreator.create_config on NetCDF3 files via xarray/scipy", "scipy CubicSpline"],
     "stub": ["AST generator / renderer / evaluator (reference model)", "synthetic climatology grids", "dirty allocator wrappers"],
